@@ -394,7 +394,7 @@ func clipStr(s string, n int) string {
 }
 
 func c12(c *fw.Ctx) {
-	c.Rule("all 11 writers x seeded random (content class, format from all 17 values, width/height from {-2^31, -1, 0, 1, small, 0..400, 20000} (plus, per writer, three requests beyond 2^31 pixels), hint-less calls half through EncodeWithoutHint, hint maps over the ten accepted hint keys with in- and out-of-range values of the accepted types); every second case keeps ONE writer instance for its 12 calls and repeats the previous content under new hints and sizes one time in three; per call: recover() for panics, dispatch-step hook for the Data Matrix mode loop, CPU/heap budget, exactly one of matrix/error, matrix >= the symbol's module count (same writer and hints at 0x0, margin 0) and, for QR/1-D, >= max(requested, 1); distinct = distinct (writer, content, format, size, hints) that returned a matrix")
+	c.Rule("all 11 writers x seeded random (content class, format from all 17 values, width/height from {-2^31, -1, 0, 1, small, 0..400, 20000} (plus, per writer, three requests beyond 2^31 pixels), hint-less calls half through EncodeWithoutHint, hint maps over the ten accepted hint keys with in- and out-of-range values of the accepted types); every second case keeps ONE writer instance for its 12 calls and repeats the previous content under new hints and sizes one time in three; every writer also as the FIRST use of the library in a fresh process (3 child processes each); per call: recover() for panics, dispatch-step hook for the Data Matrix mode loop, CPU/heap budget, exactly one of matrix/error, matrix >= the symbol's module count (same writer and hints at 0x0, margin 0) and, for QR/1-D, >= max(requested, 1); distinct = distinct (writer, content, format, size, hints) that returned a matrix")
 	c.Assume("hint values are of the types documented in encode_hint_type.go (FORCE_CODE_SET: string; MIN/MAX_SIZE: *Dimension incl. nil; ERROR_CORRECTION: ErrorCorrectionLevel or string; MARGIN/QR_VERSION/QR_MASK_PATTERN: int or string; GS1_FORMAT: bool or string)")
 	n := c.Pick(450, 25000)
 	for wi := range allWriters {
@@ -421,8 +421,11 @@ func c12(c *fw.Ctx) {
 		c.Floor("matrices_"+ws.Name, 60)
 		c.Floor("errors_"+ws.Name, 60)
 		c.Run("huge/"+ws.Name, func(r *fw.Rec) { c12Huge(r, ws) })
+		wiCold := wi
+		c.Run("cold/"+ws.Name, func(r *fw.Rec) { c12Cold(r, wiCold) })
 	}
 	c.Floor("calls_through_EncodeWithoutHint", 500)
+	c.Floor("cold_start_encodes", 33)
 	c.Floor("same_content_again_on_the_same_instance", 1000)
 	// every writer x every format value, valid content
 	c.Run("formats", func(r *fw.Rec) {
@@ -454,4 +457,49 @@ func c12(c *fw.Ctx) {
 	c.Exhaustive("11 writers x 17 BarcodeFormat values (valid content)")
 	c.Floor("writer_format_pairs", 187)
 	c.Floor("natural_size_checked", 1000)
+}
+
+// ---- cold starts: a writer as the first thing a fresh process does with the library
+
+func init() {
+	fw.RegisterCold("c12first", func(arg string) (out string) {
+		defer func() {
+			if p := recover(); p != nil {
+				out = fmt.Sprintf("PANIC %v", p)
+			}
+		}()
+		var wi int
+		var seed uint64
+		fmt.Sscanf(arg, "%d %d", &wi, &seed)
+		ws := &allWriters[wi]
+		rng := fw.NewRand(seed)
+		for i := 0; i < 4; i++ {
+			content := ws.Gen(rng, false)
+			bm, err := ws.New().Encode(content, ws.Format, 0, 0, nil)
+			if (bm == nil) == (err == nil) {
+				return fmt.Sprintf("Encode(%q) returned matrix=%v err=%v", content, bm != nil, err)
+			}
+			if err != nil {
+				return fmt.Sprintf("Encode(%q) of a valid content failed: %v", content, err)
+			}
+		}
+		return "OK"
+	})
+}
+
+// c12Cold: every writer encodes valid contents as the first use of the library in a process
+// (no reader, no other writer has run: whatever is built lazily is still unbuilt).
+func c12Cold(r *fw.Rec, wi int) {
+	ws := &allWriters[wi]
+	for k := 0; k < 3; k++ {
+		seed := r.Rng.Uint64() >> 1
+		out, err := fw.RunCold("c12first", fmt.Sprintf("%d %d", wi, seed))
+		r.Evals(1)
+		if err != nil || out != "OK" {
+			r.Violation("panic", "encode:cold-start:"+ws.Name, fmt.Sprintf("%s writer as the first use of the library in a fresh process: %s %v", ws.Name, out, err), map[string]interface{}{"writer": ws.Name, "seed": seed})
+			return
+		}
+		r.Tally("cold_start_encodes")
+	}
+	r.Nontrivial("cold/" + ws.Name)
 }
